@@ -21,7 +21,79 @@ RULE = ("random labelled arrays with weights on sub/supersets of the data dims, 
         "w1+w2 (equal masks), unit weights, explicit broadcast; distinct by hash of (function, inputs, relation); non-trivial = result finite somewhere")
 
 
+def recipe_weights(ctx):
+    """the weight relations on every weight-accepting public function, through call recipes (implementation only)"""
+    import recipes
+    rng = ctx.rng
+    R = [rc for rc in recipes.recipes() if rc.weights]
+    for it in range(ctx.n(4, 20)):
+        for rc in R:
+            if not ctx.time_left():
+                return
+            xs = [recipes.mat(x) for x in rc.gen(rng)]
+            dd = [d for d in xs[0].dims if d not in rc.nondata]
+            sizes = {d: xs[0].sizes[d] for d in dd}
+            wd = [d for d in dd if rng.random() < 0.6]
+            w = gens.rand_da(rng, sizes, dims=wd, lo=1, hi=3, shuffle=False)
+            w = w.assign_coords({d: xs[0][d] for d in wd})
+            if rng.random() < 0.3 and wd:
+                vals = w.values.copy()
+                vals.flat[rng.randrange(vals.size)] = np.nan
+                w = w.copy(data=vals)
+            kw0 = {}
+            if rc.dims_kw and rng.random() < 0.6:
+                sub = [d for d in dd if rng.random() < 0.5]
+                kw0 = {"reduce_dims": sub} if rng.random() < 0.5 else {"preserve_dims": sub}
+
+            def call(wt, kw=kw0):
+                k = dict(kw)
+                if wt is not None:
+                    k["weights"] = wt
+                r = core.call_impl(rc.call, xs, **k)
+                if rc.name == "rmse" and r[0] == "ok":
+                    r = ("ok", r[1] ** 2)
+                return r
+            desc = {"fn": rc.name, "inputs": [gens.da_repr(x) for x in xs], "weights": gens.da_repr(w), "kw": kw0}
+            base = call(w)
+            ctx.case(desc, base[0] == "ok")
+            ctx.count("recipe:" + rc.name)
+            if base[0] != "ok":
+                ctx.violation(f"{rc.name}: valid weights raise {base[1]}", desc, "a value", base[1])
+                continue
+            c = rng.choice([0.5, 2.0, 3.0])
+            sc = call(w * c)
+            if rc.kind == "mean":
+                ok, why = scorelib.same_result(sc, ("ok", base[1] * c))
+                what = f"{rc.name}: weights {c}*w do not scale the score by {c}"
+            else:
+                ok, why = scorelib.same_result(sc, base)
+                what = f"{rc.name}: ratio score is not invariant under the constant weight factor {c}"
+            if not ok:
+                ctx.violation(what + ": " + why, dict(desc, c=c), "scaled/invariant", why)
+            ok, why = scorelib.same_result(call(xr.ones_like(w)), call(None))
+            if not ok:
+                ctx.violation(f"{rc.name}: unit weights change the result: {why}", desc, "same as unweighted", why)
+            if rc.kind == "mean":
+                w2 = w * 0 + gens.rand_da(rng, sizes, dims=list(w.dims), lo=0, hi=3, shuffle=False).assign_coords({d: w[d] for d in w.dims})
+                r2, r12 = call(w2), call(w + w2)
+                if r2[0] == r12[0] == "ok":
+                    ok, why = scorelib.same_value(r12[1], base[1] + r2[1])
+                    if not ok:
+                        ctx.violation(f"{rc.name}: weights w1+w2 do not give the sum of the two results: {why}", dict(desc, w2=gens.da_repr(w2)), "r(w1)+r(w2)", why)
+                if rc.dims_kw:
+                    pw_w, pw = call(w, {"preserve_dims": "all"}), call(None, {"preserve_dims": "all"})
+                    if pw_w[0] == "ok" and pw[0] == "ok":
+                        ok, why = scorelib.same_value(pw_w[1], pw[1] * w)
+                        if not ok:
+                            ctx.violation(f"{rc.name}: preserve_dims='all' result with weights is not weights * unweighted pointwise result: {why}", desc, "w * pointwise", why)
+
+
 def run(ctx):
+    registry_weights(ctx)
+    recipe_weights(ctx)
+
+
+def registry_weights(ctx):
     rng = ctx.rng
     wfns = [n for n, f in REGISTRY.items() if f.weights]
     for it in range(ctx.n(12, 150)):
